@@ -134,9 +134,16 @@ func specUploader(u *uploader) bool {
 // earliest begin of the week's files: after an expired file was filed under its
 // week, that week's earliest begin is not after the file's begin.
 //@   at loop 1 end: assert in(expiry, earliest) && !earliest[expiry].After(begin)
+// C09/C07, which week a collected file belongs to: a file whose span could be read
+// is filed exactly if its recorded end is before the run's start (an instant, not
+// a date: a file that ended at midnight is finished for a run later that day), and
+// it is filed under the date of that end.
+//@   at call append#1: ghost $collected = arg1[0]
+//@   at call append#1: assert err == nil && end.Before(u.startTime) && arg1[0] == f && expiry == end.Format(dateFormat)
+//@   at loop 1 end: assert err == nil && end.Before(u.startTime) ==> $collected == f
 //@   at call createReport#1: assert arg1 == earliest[expiry]
 //@   loop 2: invariant uploaderOK(u) && todo != nil && (len(todo.readyfiles) > 0 ==> $mode == "on") && $mode != "off"
-//@   modifies todo.readyfiles, u.cache.m, entries(u.cache.m), maps(string, int64), $fsops, $reportExists, $contributed, $minsize, $nprog, $dateOK, $age, $tooOld
+//@   modifies todo.readyfiles, u.cache.m, entries(u.cache.m), maps(string, int64), $fsops, $reportExists, $contributed, $minsize, $nprog, $dateOK, $age, $tooOld, $collected
 
 //@ contract latestReport
 //@   loop 1: invariant latest == "" || strings.HasSuffix(latest, ".json")
